@@ -62,6 +62,62 @@ def reused_tracer_paths(ctx, nprog):
     return out
 
 
+def played_paths(ctx, nprog):
+    """Path.path of PLAYED paths: generated tweezer kernels called as device functions, forward and reversed, by a move kernel on the three
+    path.gen routes (spec-carrying interpreter; plain interpreter with the recorded spec; compile-time folding when the operands are literals)"""
+    from vcommon import events
+    S = tweezer_prog.harness_spec()
+    out = []
+    from types import SimpleNamespace as NS
+    fixed = [
+        # a tone switch that selects nothing, followed by moves, then a switch that selects something; ends with the tones on
+        NS(src="@tweezer\ndef main(x: float, n: int):\n    g = grid.from_positions([x, x + 2.0], [0.0, 1.0])\n    action.set_loc(g)\n    action.turn_on([], action.ALL)\n"
+               "    action.move(grid.shift(g, 1.0, 0.5))\n    action.move(grid.shift(g, 1.0, 2.5))\n    action.turn_on([0, 1], [])\n    action.move(grid.shift(g, 3.0, 2.5))\n"
+               "    action.turn_on(action.ALL, [0])\n    i = 0\n    for i in range(n):\n        action.move(grid.shift(g, 4.0 + i, 2.5))\n",
+           params=["x", "n"], arg_tuples=[(1.0, 2), (0.5, 0)]),
+        # pick up, carry, and keep holding (the shape of the library CZ kernel): the reversal starts with a turn-off
+        NS(src="@tweezer\ndef main(x: float, n: int):\n    g = grid.from_positions([x], [0.0, 1.0, 4.0])\n    action.set_loc(g)\n    action.turn_on(action.ALL, action.ALL)\n"
+               "    action.move(grid.shift(g, 1.0, 0.5))\n    action.turn_off([0], [1])\n    action.move(grid.shift(g, 1.0, 2.5))\n    action.turn_on([0], [1, 2])\n",
+           params=["x", "n"], arg_tuples=[(1.0, 2)]),
+        # no switch at all / only a set_loc
+        NS(src="@tweezer\ndef main(x: float, n: int):\n    g = grid.from_positions([x], [0.0])\n    action.set_loc(g)\n    action.move(grid.shift(g, 1.0, 0.5))\n",
+           params=["x", "n"], arg_tuples=[(1.0, 0)]),
+    ]
+    for i in range(-len(fixed), nprog):
+        prog = fixed[i] if i < 0 else tweezer_prog.gen_prog(ctx.rng, p_err=0.02)
+        try:
+            k = kernels.define(prog.src)["main"]
+        except Exception:
+            if i < 0:
+                ctx.obligation("the fixed played kernels can be defined", False, prog.src[:100])
+            continue
+        names = [f"a{j}" for j in range(len(prog.params))]
+        for args in prog.arg_tuples[:2]:
+            st, direct = tc.run_impl(k, args, S)
+            if st != "ok":
+                continue
+            literal = all(isinstance(a, (bool, int, float)) for a in args)
+            routes = [("spec-carrying interpreter", "", False, False), ("plain interpreter, recorded spec", "(arch_spec=S)", True, False)]
+            if literal:
+                routes.append(("compile-time folding", "(arch_spec=S)", True, True))
+            for rname, dec, plain, lit in routes:
+                ops = ", ".join(repr(a) for a in args) if lit else ", ".join(names)
+                src = (f"@move{dec}\ndef mv({'' if lit else ', '.join(names)}):\n    f = schedule.device_fn(k, [0], [0])\n    f({ops})\n    schedule.reverse(f)({ops})\n")
+                rep = {"src": prog.src, "args": repr(args), "played_by": src, "route": rname}
+                try:
+                    m = kernels.define(src, k=k, S=S)["mv"]
+                    st2, evs, extra = events.run_events(m, () if lit else tuple(args), S, plain=plain)
+                except Exception as e:
+                    st2, evs, extra = "err", [], f"{type(e).__name__}: {e}"
+                ctx.hist("played", rname + ": " + ("two paths" if st2 == "ok" and len(evs) == 2 else "no paths"))
+                if st2 != "ok" or len(evs) != 2:
+                    ctx.fail({"kind": "traced-kernel-not-played", "route": rname}, rep, f"{rname}: a kernel that traces could not be played forward and reversed: {str(extra)[:120]}")
+                    continue
+                for which, e in zip(("played", "played reversed"), evs):
+                    out.append((f"played/{rname}", dict(rep, which=which), list(e[1].path)))
+    return out
+
+
 def shape_text(ap):
     out = []
     for a in ap:
@@ -114,9 +170,11 @@ def run(ctx):
     corpus += [("library:" + n, {"kernel": n, "args": a}, r) for n, a, r in library_paths(ctx)]
     corpus += [("reused-tracer", rep, r) for rep, r in reused_tracer_paths(ctx, ctx.pick(120, 1200))]
     rendered_paths(ctx, corpus[:ctx.pick(150, 1500)])
+    played = played_paths(ctx, ctx.pick(60, 600))
+    ctx.count("played paths (Path.path of path.Play events, three routes, forward and reversed)", len(played))
     cases = []
-    for kind, rep, p in corpus:
-        for which, q in (("traced", p), ("reversed", T.reverse_path(p))):
+    for kind, rep, p in corpus + played:
+        for which, q in ((("traced", p), ("reversed", T.reverse_path(p))) if not kind.startswith("played/") else ((rep["which"], p),)):
             ap = tc.abstract_path(q)
             why = tc.wf_py(ap)
             ctx.evaluations += 1
@@ -174,6 +232,19 @@ def replay(data):
         if last is None or last[0] != "ok":
             return False, "last call of the history does not produce a path now"
         q = last[1] if inp.get("which") == "traced" else T.reverse_path(last[1])
+        why = tc.wf_py(tc.abstract_path(q))
+        return why is not None, why or "well formed"
+    if "played_by" in inp:
+        from vcommon import events
+        S = tweezer_prog.harness_spec()
+        k = kernels.define(inp["src"])["main"]
+        args = eval(inp["args"], {"slice": slice, "IList": ilist.IList})
+        m = kernels.define(inp["played_by"], k=k, S=S)["mv"]
+        lit = "def mv()" in inp["played_by"]
+        st, evs, extra = events.run_events(m, () if lit else tuple(args), S, plain="arch_spec" in inp["played_by"])
+        if st != "ok" or len(evs) != 2:
+            return True, "not played: " + str(extra)[:100]
+        q = list(evs[0 if inp.get("which") == "played" else 1][1].path)
         why = tc.wf_py(tc.abstract_path(q))
         return why is not None, why or "well formed"
     if "src" not in inp:
